@@ -48,6 +48,7 @@ const (
 	bRefuse    = "refuse"    // the dial fails with ECONNREFUSED
 	bWriteFail = "writefail" // Write fails with EPIPE
 	bServfail  = "servfail"  // matching SERVFAIL reply
+	bDup       = "dup"       // the matching reply, sent twice (the copy stays unread on the connection)
 )
 
 var c17Behaviours = []string{
@@ -127,6 +128,9 @@ type c17Conn struct {
 	wbuf   []byte
 	rerr   error
 	closed bool
+	// dirtyAt[e] is set when a request of exchange e was written while
+	// unread reply bytes of an earlier request were pending.
+	dirtyAt map[int]bool
 	prev   *dns.Msg
 }
 
@@ -186,6 +190,12 @@ func (c *c17Conn) serve(raw []byte) (werr error) {
 	beh := c.srv.beh(c.nw, c.idx, c.nreq)
 	c.nreq++
 	sent := c17Sent{conn: c, exch: *c.srv.exch, req: req, beh: beh}
+	if len(c.dgrams) > 0 || len(c.stream) > 0 {
+		if c.dirtyAt == nil {
+			c.dirtyAt = map[int]bool{}
+		}
+		c.dirtyAt[*c.srv.exch] = true
+	}
 	defer func() { c.srv.log = append(c.srv.log, sent) }()
 
 	q := req.Question[0]
@@ -206,7 +216,7 @@ func (c *c17Conn) serve(raw []byte) (werr error) {
 	var reply *dns.Msg
 	var rawReply []byte
 	switch beh {
-	case bMatch:
+	case bMatch, bDup:
 		reply = mk()
 	case bServfail:
 		reply = mk()
@@ -285,11 +295,18 @@ func (c *c17Conn) serve(raw []byte) (werr error) {
 		if err = sent.reply.Unpack(rawReply); err != nil {
 			vrt.Fatalf("c17: unpacking scripted reply: %v", err)
 		}
-		if beh == bMatch || beh == bCaseName || beh == bServfail {
+		if beh == bMatch || beh == bCaseName || beh == bServfail || beh == bDup {
 			c.prev = sent.reply
 		}
 	}
-	if rawReply != nil {
+	copies := 1
+	if beh == bDup {
+		copies = 2
+	}
+	for range copies {
+		if rawReply == nil {
+			break
+		}
 		if c.nw == NetworkUDP {
 			c.dgrams = append(c.dgrams, rawReply)
 		} else {
@@ -435,7 +452,7 @@ func c17RunUpCase(r *vrt.Run, c c17UpCase) (fs []vrt.Finding) {
 				return vrt.F("upstream/accepted-reply-never-sent", "%s: the accepted reply was not sent by the upstream for this query", what)
 			}
 		}
-		if len(mine) > 0 && (mine[0].beh == bMatch || mine[0].beh == bCaseName) {
+		if len(mine) > 0 && (mine[0].beh == bMatch || mine[0].beh == bCaseName) && !c17Unread(mine[0].conn, e) {
 			// The upstream replied with a matching reply at once.
 			if err != nil || vdns.Canon(resp, true) != vdns.Canon(mine[0].reply, true) {
 				return vrt.F("upstream/matching-reply-not-returned", "%s: the first connection answered with the matching reply %s",
@@ -465,6 +482,11 @@ func c17RunUpCase(r *vrt.Run, c c17UpCase) (fs []vrt.Finding) {
 	return nil
 }
 
+// c17Unread reports whether conn still held unread bytes of an earlier
+// exchange when exchange e began (a duplicate reply): then the first thing
+// read in exchange e is not the reply to its request.
+func c17Unread(c *c17Conn, e int) bool { return c.dirtyAt[e] }
+
 func c17GenUpCases(r *vrt.Run, emit func(c17UpCase)) {
 	nets := []string{string(NetworkAny), string(NetworkUDP), string(NetworkTCP)}
 	all := c17Behaviours
@@ -488,7 +510,7 @@ func c17GenUpCases(r *vrt.Run, emit func(c17UpCase)) {
 	laterQ := vrt.Pick(r, []string{bMatch, bStale, bWrongID, bEOF, bReset, bSilent, bWriteFail}, later)
 	nex := vrt.Pick(r, 2, 3)
 	for _, nw := range nets {
-		for _, first := range []string{bMatch, bTC} {
+		for _, first := range []string{bMatch, bTC, bDup} {
 			for _, y := range laterQ {
 				for _, u1 := range second {
 					for _, yt := range laterQ {
